@@ -4,4 +4,4 @@ export GOFLAGS=-mod=mod GOPROXY=off GOSUMDB=off GOTOOLCHAIN=local
 cd /verif/harness && go vet ./props && go test -c -o /verif/build/bin/props.test ./props || exit 1
 cd /verif/build && VERIF_KNOWN=/verif/known_findings.json VERIF_STATS=/verif/build/dev.stats.json VERIF_REPLAYS=/verif/replays timeout 300 ./bin/props.test -test.run "^$1\$" -rapid.checks ${2:-500} -rapid.seed ${3:-7} -rapid.nofailfile -test.timeout 280s 2>&1 | grep -v "rapid\] draw" | tail -${TAIL:-12}
 python3 -c "
-import json; s=json.load(open('/verif/build/dev.stats.json')); s['nontrivial_hashes']=len(s['nontrivial_hashes']); s['samples']=len(s['samples']); print(json.dumps(s)[:2500])"
+import json; s=json.load(open('/verif/build/dev.stats.json')); s['nontrivial_hashes']=len(s['nontrivial_hashes']); s['samples']=len(s['samples'] or []); print(json.dumps(s)[:2500])"
